@@ -61,13 +61,12 @@ StripD(n, d, e) == IF d % 2 = 0 THEN StripD(n, d \div 2, e - 1) ELSE <<n, d, e>>
 Zero == [k |-> "num", n |-> 0, d |-> 1, e |-> 0, nz |-> FALSE]
 NegZero == [k |-> "num", n |-> 0, d |-> 1, e |-> 0, nz |-> TRUE]
 \* the number (n/d) * 2^e, d > 0, in normal form
-Num(n, d, e) ==
-  IF n = 0 THEN Zero
-  ELSE LET sg == IF n < 0 THEN -1 ELSE 1
-           a == StripN(Abs(n), d, e)
-           b == StripD(a[1], a[2], a[3])
-           g == Gcd(b[1], b[2])
-       IN [k |-> "num", n |-> sg * (b[1] \div g), d |-> b[2] \div g, e |-> b[3], nz |-> FALSE]
+\* (definitions are chained through parameters rather than through LET: TLC's coverage
+\* cost model copies a LET definition at every reference)
+NumByGcd(sg, t, g) == [k |-> "num", n |-> sg * (t[1] \div g), d |-> t[2] \div g, e |-> t[3], nz |-> FALSE]
+NumOddD(sg, t) == NumByGcd(sg, t, Gcd(t[1], t[2]))                  \* t = <<n, d, e>>, n and d odd
+NumOddN(sg, t) == NumOddD(sg, StripD(t[1], t[2], t[3]))             \* n odd
+Num(n, d, e) == IF n = 0 THEN Zero ELSE NumOddN(IF n < 0 THEN -1 ELSE 1, StripN(Abs(n), d, e))
 I(i) == Num(i, 1, 0)
 IsZero(x) == x.n = 0
 IsNeg(x) == x.n < 0 \/ x.nz        \* the IEEE sign bit
@@ -76,13 +75,15 @@ Neg(x) == IF x.n = 0 THEN [x EXCEPT !.nz = ~x.nz] ELSE [x EXCEPT !.n = -x.n]
 \* largest shift for which aligning two operands stays inside 32 bits; operands
 \* have |n|, d < 2^6 (checked for the universe by MC_Ops.UniverseOK)
 MaxShift == 16
+\* x, y non-zero, e0 the smaller exponent
+AddAligned(x, y, e0) ==
+  IF x.e - e0 > MaxShift \/ y.e - e0 > MaxShift THEN (IF x.e > y.e THEN [k |-> "sum", x |-> x, y |-> y] ELSE [k |-> "sum", x |-> y, y |-> x])
+  ELSE Num(x.n * Pow(2, x.e - e0) * y.d + y.n * Pow(2, y.e - e0) * x.d, x.d * y.d, e0)
 Add(x, y) ==
   IF IsZero(x) /\ IsZero(y) THEN (IF x.nz /\ y.nz THEN NegZero ELSE Zero)
   ELSE IF IsZero(x) THEN y
   ELSE IF IsZero(y) THEN x
-  ELSE LET e0 == IF x.e < y.e THEN x.e ELSE y.e IN
-       IF x.e - e0 > MaxShift \/ y.e - e0 > MaxShift THEN (IF x.e > y.e THEN [k |-> "sum", x |-> x, y |-> y] ELSE [k |-> "sum", x |-> y, y |-> x])
-       ELSE Num(x.n * Pow(2, x.e - e0) * y.d + y.n * Pow(2, y.e - e0) * x.d, x.d * y.d, e0)
+  ELSE AddAligned(x, y, IF x.e < y.e THEN x.e ELSE y.e)
 Sub(x, y) == Add(x, Neg(y))
 Mul(x, y) ==
   IF IsZero(x) \/ IsZero(y) THEN (IF IsNeg(x) # IsNeg(y) THEN NegZero ELSE Zero)
@@ -114,15 +115,11 @@ Small(x) == x.e <= 24
 IntOf(x) == x.n * Pow(2, x.e)        \* an integer-valued Small num as a TLC integer
 \* remainder of integer-valued x by integer-valued y # 0 (both n * 2^e, e >= 0), sign of the
 \* dividend.  Both are scaled down by 2^em; then one of them is an odd integer below 2^6.
-Rem(x, y) ==
-  LET sg == IF x.n < 0 THEN -1 ELSE 1
-      em == IF x.e < y.e THEN x.e ELSE y.e
-      ex == x.e - em
-      ey == y.e - em
-  IN IF IsZero(x) THEN Zero
-     ELSE IF ey <= 8 THEN LET m == Abs(y.n) * Pow(2, ey)
-                          IN Num(sg * (((Abs(x.n) % m) * PowMod(2, ex, m)) % m), 1, em)
-     ELSE x                           \* ex = 0 and |x| < 2^6 * 2^em < |y|
+RemScaled(x, sg, em, ex, m) == Num(sg * (((Abs(x.n) % m) * PowMod(2, ex, m)) % m), 1, em)
+RemBy(x, y, em) ==                    \* em the smaller exponent; ex = x.e - em, ey = y.e - em
+  IF y.e - em <= 8 THEN RemScaled(x, IF x.n < 0 THEN -1 ELSE 1, em, x.e - em, Abs(y.n) * Pow(2, y.e - em))
+  ELSE x                              \* ex = 0 and |x| < 2^6 * 2^em < |y|
+Rem(x, y) == IF IsZero(x) THEN Zero ELSE RemBy(x, y, IF x.e < y.e THEN x.e ELSE y.e)
 \* |x| >= 2^63: outside the range of a 64-bit integer (x integer-valued)
 Beyond63(x) == ~IsZero(x) /\ x.e >= 58 /\ (x.e - 58 > 5 \/ Abs(x.n) * Pow(2, x.e - 58) >= 32)
 
@@ -139,22 +136,18 @@ DigitsLE(i) == IF i < 10 THEN <<i>> ELSE <<i % 10>> \o DigitsLE(i \div 10)
 Rev(s) == [i \in 1..Len(s) |-> s[Len(s) + 1 - i]]
 DigText(ds) == [i \in 1..Len(ds) |-> DigitChar(ds[i])]       \* big-endian digits -> bytes
 \* exact decimal expansion of |x|
+PadTo(raw, kk) == raw \o [i \in 1..(IF Len(raw) > kk THEN 0 ELSE kk + 1 - Len(raw)) |-> 0]
+PointAt(pad, kk) == DigText(Rev(SubSeq(pad, kk + 1, Len(pad)))) \o <<".">> \o DigText(Rev(SubSeq(pad, 1, kk)))
 ExactText(x) ==
   IF x.e >= 0 THEN DigText(Rev(MulPow(DigitsLE(Abs(x.n)), 2, x.e)))
-  ELSE LET kk == -x.e
-           raw == MulPow(DigitsLE(Abs(x.n)), 5, kk)           \* n * 5^k, to be divided by 10^k
-           pad == raw \o [i \in 1..(IF Len(raw) > kk THEN 0 ELSE kk + 1 - Len(raw)) |-> 0]
-       IN DigText(Rev(SubSeq(pad, kk + 1, Len(pad)))) \o <<".">> \o DigText(Rev(SubSeq(pad, 1, kk)))
+  ELSE PointAt(PadTo(MulPow(DigitsLE(Abs(x.n)), 5, -x.e), -x.e), -x.e)   \* n * 5^k / 10^k with k = -e
 \* The print form is the SHORTEST decimal that reads back as the same double.  Up to 16
 \* significant digits that is the exact expansion; the longer numbers the models use are
 \* listed here (leaf facts; the harness checks them against strconv).
 LongNumTexts == {<<[n |-> 1, e |-> 70], Chars("1180591620717411300000")>>}
+AbsText(x, long) == IF x.n = 0 THEN <<"0">> ELSE IF long # {} THEN (CHOOSE p \in long : TRUE)[2] ELSE ExactText(x)
 NumText(x) ==
-  LET sign == IF IsNeg(x) THEN <<"-">> ELSE <<>>
-      long == {p \in LongNumTexts : p[1].n = Abs(x.n) /\ p[1].e = x.e /\ x.d = 1}
-  IN IF x.n = 0 THEN sign \o <<"0">>
-     ELSE IF long # {} THEN sign \o (CHOOSE p \in long : TRUE)[2]
-     ELSE sign \o ExactText(x)
+  (IF IsNeg(x) THEN <<"-">> ELSE <<>>) \o AbsText(x, {p \in LongNumTexts : p[1].n = Abs(x.n) /\ p[1].e = x.e /\ x.d = 1})
 
 \* ----- numeric strings: [sign] digits [. digits] [e [sign] digits], at least
 \* one mantissa digit, nothing else (no blanks).  Go's hex / inf / nan / _
@@ -164,25 +157,29 @@ SpanDigits(s, i) == IF i <= Len(s) /\ s[i] \in Digit THEN SpanDigits(s, i + 1) E
 RECURSIVE DigitsValue(_)
 DigitsValue(ds) == IF ds = <<>> THEN 0 ELSE 10 * DigitsValue(SubSeq(ds, 1, Len(ds) - 1)) + DigitVal(ds[Len(ds)])
 NoNum == [ok |-> FALSE]
-ParseNum(s) ==
-  LET i0 == IF Len(s) >= 1 /\ s[1] \in {"+", "-"} THEN 2 ELSE 1
-      neg == Len(s) >= 1 /\ s[1] = "-"
-      i1 == SpanDigits(s, i0)                                  \* end of the integer digits
-      dot == i1 <= Len(s) /\ s[i1] = "."
-      i2 == IF dot THEN SpanDigits(s, i1 + 1) ELSE i1          \* end of the fraction digits
-      intd == SubSeq(s, i0, i1 - 1)
-      frac == IF dot THEN SubSeq(s, i1 + 1, i2 - 1) ELSE <<>>
-      hasE == i2 <= Len(s) /\ s[i2] \in {"e", "E"}
-      j0 == IF hasE /\ i2 + 1 <= Len(s) /\ s[i2 + 1] \in {"+", "-"} THEN i2 + 2 ELSE i2 + 1
-      eneg == hasE /\ i2 + 1 <= Len(s) /\ s[i2 + 1] = "-"
-      j1 == IF hasE THEN SpanDigits(s, j0) ELSE i2
-      expd == IF hasE THEN SubSeq(s, j0, j1 - 1) ELSE <<>>
-      m == DigitsValue(intd \o frac)
-      e10 == (IF eneg THEN -1 ELSE 1) * DigitsValue(expd) - Len(frac)
-  IN IF Len(intd) + Len(frac) = 0 \/ (hasE /\ expd = <<>>) \/ j1 # Len(s) + 1 THEN NoNum
-     ELSE IF m = 0 THEN [ok |-> TRUE, v |-> IF neg THEN NegZero ELSE Zero]
-     ELSE LET q == IF e10 >= 0 THEN Num(m * Pow(5, e10), 1, e10) ELSE Num(m, Pow(5, -e10), e10)
-          IN [ok |-> TRUE, v |-> IF neg THEN Neg(q) ELSE q]
+\* A scanner in stages, each handing what it found to the next one:
+\*   sign (i0 = index after it), integer digits (up to i1), "." and fraction digits (up to i2),
+\*   exponent marker, exponent sign, exponent digits (j0 up to j1), end of text
+PSigned(neg, q) == [ok |-> TRUE, v |-> IF neg THEN Neg(q) ELSE q]
+PValue(neg, m, e10) ==                                    \* mantissa m (an integer) times 10^e10
+  IF m = 0 THEN [ok |-> TRUE, v |-> IF neg THEN NegZero ELSE Zero]
+  ELSE PSigned(neg, IF e10 >= 0 THEN Num(m * Pow(5, e10), 1, e10) ELSE Num(m, Pow(5, -e10), e10))
+PCheck(neg, intd, frac, hasE, expd, eneg, atEnd) ==
+  IF Len(intd) + Len(frac) = 0 \/ (hasE /\ expd = <<>>) \/ ~atEnd THEN NoNum
+  ELSE PValue(neg, DigitsValue(intd \o frac), (IF eneg THEN -1 ELSE 1) * DigitsValue(expd) - Len(frac))
+PExpDigits(s, neg, intd, frac, hasE, eneg, j0, j1) ==
+  PCheck(neg, intd, frac, hasE, IF hasE THEN SubSeq(s, j0, j1 - 1) ELSE <<>>, eneg, j1 = Len(s) + 1)
+PExpStart(s, neg, intd, frac, i2, hasE, eneg, j0) ==
+  PExpDigits(s, neg, intd, frac, hasE, eneg, j0, IF hasE THEN SpanDigits(s, j0) ELSE i2)
+PExpSign(s, neg, intd, frac, i2, hasE) ==
+  PExpStart(s, neg, intd, frac, i2, hasE, hasE /\ i2 + 1 <= Len(s) /\ s[i2 + 1] = "-",
+            IF hasE /\ i2 + 1 <= Len(s) /\ s[i2 + 1] \in {"+", "-"} THEN i2 + 2 ELSE i2 + 1)
+PFraction(s, neg, intd, i1, dot, i2) ==
+  PExpSign(s, neg, intd, IF dot THEN SubSeq(s, i1 + 1, i2 - 1) ELSE <<>>, i2, i2 <= Len(s) /\ s[i2] \in {"e", "E"})
+PPoint(s, neg, intd, i1, dot) == PFraction(s, neg, intd, i1, dot, IF dot THEN SpanDigits(s, i1 + 1) ELSE i1)
+PInteger(s, neg, i0, i1) == PPoint(s, neg, SubSeq(s, i0, i1 - 1), i1, i1 <= Len(s) /\ s[i1] = ".")
+PSign(s, neg, i0) == PInteger(s, neg, i0, SpanDigits(s, i0))
+ParseNum(s) == PSign(s, Len(s) >= 1 /\ s[1] = "-", IF Len(s) >= 1 /\ s[1] \in {"+", "-"} THEN 2 ELSE 1)
 
 \* ----------------------------------------------------------------- values
 VStr(s) == [k |-> "str", s |-> s]
@@ -202,10 +199,11 @@ Truthy(v) ==
     [] v.k = "bool" -> v.b
     [] v.k \in {"arr", "obj", "fn"} -> TRUE
     [] OTHER -> FALSE                          \* null, unset, regex
+ParsedOrZero(p) == IF p.ok THEN p.v ELSE Zero
 NumOf(v) ==
   CASE v.k = "num" -> v
     [] v.k = "bool" -> IF v.b THEN I(1) ELSE Zero
-    [] v.k = "str" -> LET p == ParseNum(v.s) IN IF p.ok THEN p.v ELSE Zero
+    [] v.k = "str" -> ParsedOrZero(ParseNum(v.s))
     [] OTHER -> Zero
 StrOf(v) ==
   CASE v.k = "str" -> v.s
@@ -223,22 +221,22 @@ UnOp(op, v) ==
     [] op = "+" -> Ok(NumOf(v))
     [] op = "-" -> Ok(Neg(NumOf(v)))
 \* ++x --x x++ x--: the value of the expression and the value stored in x
-IncDec(op, prefix, v) ==
-  LET old == NumOf(v)
-      new == IF op = "++" THEN Add(old, I(1)) ELSE Sub(old, I(1))
-  IN [value |-> IF prefix THEN new ELSE old, stored |-> new]
+IncDecOf(prefix, old, new) == [value |-> IF prefix THEN new ELSE old, stored |-> new]
+IncDecNum(op, prefix, old) == IncDecOf(prefix, old, IF op = "++" THEN Add(old, I(1)) ELSE Sub(old, I(1)))
+IncDec(op, prefix, v) == IncDecNum(op, prefix, NumOf(v))
 
 \* ---------------------------------------------------------- 3.3 arithmetic
 ArithOps == {"+", "-", "*", "/", "%"}
+RemOf(tx, ty) == IF IsZero(ty) THEN Err ELSE Ok(Rem(tx, ty))
+ArithNum(op, x, y) ==
+  CASE op = "+" -> Ok(Add(x, y))
+    [] op = "-" -> Ok(Sub(x, y))
+    [] op = "*" -> Ok(Mul(x, y))
+    [] op = "/" -> IF IsZero(y) THEN Err ELSE Ok(Div(x, y))
+    [] op = "%" -> RemOf(Trunc(x), Trunc(y))
 Arith(op, l, r) ==
   IF op = "+" /\ (l.k = "str" \/ r.k = "str") THEN Ok(VStr(StrOf(l) \o StrOf(r)))
-  ELSE LET x == NumOf(l)
-           y == NumOf(r)
-       IN CASE op = "+" -> Ok(Add(x, y))
-            [] op = "-" -> Ok(Sub(x, y))
-            [] op = "*" -> Ok(Mul(x, y))
-            [] op = "/" -> IF IsZero(y) THEN Err ELSE Ok(Div(x, y))
-            [] op = "%" -> IF IsZero(Trunc(y)) THEN Err ELSE Ok(Rem(Trunc(x), Trunc(y)))
+  ELSE ArithNum(op, NumOf(l), NumOf(r))
 
 \* --------------------------------------------------------- 3.4 comparisons
 CmpOps == {"==", "!=", "<", "<=", ">", ">="}
@@ -252,15 +250,16 @@ Cmp(l, r) ==
        ELSE IF l.k = "str" /\ r.k = "str" THEN [ok |-> TRUE, c |-> StrCmp(l.s, r.s)]
        ELSE [ok |-> TRUE, c |-> NumCmp(NumOf(l), NumOf(r))]
 CmpFixed(op, l, r) == ~(op \in {"!=", "<=", ">="} /\ (l.k = "unset" \/ r.k = "unset"))
+CompareBy(op, c) ==
+  IF ~c.ok THEN Err
+  ELSE Ok(VBool(CASE op = "<" -> c.c < 0 [] op = "<=" -> c.c <= 0 [] op = ">" -> c.c > 0
+                  [] op = ">=" -> c.c >= 0 [] op = "==" -> c.c = 0 [] op = "!=" -> c.c # 0))
 Compare(op, l, r) ==
   IF l.k = "unset" \/ r.k = "unset" THEN                       \* row 1
      (CASE op \in {"<", ">"} -> Ok(VBool(TRUE))
         [] op = "==" -> Ok(VBool(FALSE))
         [] OTHER -> Unfixed)
-  ELSE LET c == Cmp(l, r) IN
-       IF ~c.ok THEN Err
-       ELSE Ok(VBool(CASE op = "<" -> c.c < 0 [] op = "<=" -> c.c <= 0 [] op = ">" -> c.c > 0
-                       [] op = ">=" -> c.c >= 0 [] op = "==" -> c.c = 0 [] op = "!=" -> c.c # 0))
+  ELSE CompareBy(op, Cmp(l, r))
 
 \* --------------------------------------------------------------- 3.5 logic
 LogicOps == {"&&", "||"}
@@ -355,14 +354,13 @@ Join(ps, sep) == IF ps = <<>> THEN <<>> ELSE IF Len(ps) = 1 THEN ps[1] ELSE ps[1
 IsInteger(x) == IsZero(x) \/ (x.d = 1 /\ x.e >= 0)
 Floor(x) ==
   IF IsInteger(x) THEN (IF IsZero(x) THEN Zero ELSE x)
-  ELSE LET t == Trunc(x) IN IF x.n < 0 THEN Sub(t, I(1)) ELSE t
-Ceil(x) == LET f == Floor(Neg(x)) IN IF IsZero(f) THEN Zero ELSE Neg(f)
+  ELSE IF x.n < 0 THEN Sub(Trunc(x), I(1)) ELSE Trunc(x)
+PlusZero(x) == IF IsZero(x) THEN Zero ELSE x
+Ceil(x) == PlusZero(Neg(Floor(Neg(x))))
 \* nearest integer, halves away from zero: sign(x) * floor(|x| + 1/2)
 Round(x) ==
   IF IsInteger(x) THEN (IF IsZero(x) THEN Zero ELSE x)
-  ELSE LET a == IF x.n < 0 THEN Neg(x) ELSE x
-           r == Floor(Add(a, Num(1, 1, -1)))
-       IN IF IsZero(r) THEN Zero ELSE IF x.n < 0 THEN Neg(r) ELSE r
+  ELSE IF x.n < 0 THEN PlusZero(Neg(Floor(Add(Neg(x), Num(1, 1, -1))))) ELSE Floor(Add(x, Num(1, 1, -1)))
 
 \* objects as functions from keys (byte strings) to values
 ObjLen(o) == Cardinality(DOMAIN o)
@@ -376,7 +374,6 @@ SetKeyH(h, id, key, v) == [h EXCEPT ![id] = [kk \in DOMAIN h[id] \cup {key} |-> 
 
 \* num(v): the number a numeric string denotes, null for any other string;
 \* num() of a number is not fixed by the statement; other kinds: see MC_Methods
-NumBuiltin(v) ==
-  IF v.k = "str" THEN (LET p == ParseNum(v.s) IN IF p.ok THEN p.v ELSE VNull)
-  ELSE [k |-> "unfixed"]
+ParsedOrNull(p) == IF p.ok THEN p.v ELSE VNull
+NumBuiltin(v) == IF v.k = "str" THEN ParsedOrNull(ParseNum(v.s)) ELSE [k |-> "unfixed"]
 =============================================================================
